@@ -158,6 +158,7 @@ type session struct {
 	forgedFirst bool
 	faultsUsed  map[string]int
 	stopDone    bool
+	edgeReply   *message.GetHashByNoRsp
 	poisoned    map[string]int
 	maxLag      time.Duration // worst (actual - planned) reply delay: timing disturbance indicator
 	// per request counters
@@ -412,6 +413,18 @@ func (r *rig) TellTo(target string, m interface{}) {
 	s := r.out(m)
 	switch target {
 	case message.SyncerSvc:
+		if st, ok := m.(*message.SyncStop); ok && s != nil && st.FromWho == syncer.NameFinder {
+			r.mu.Lock()
+			late := s.edgeReply
+			s.edgeReply = nil
+			if late != nil {
+				r.recordIn(s, "GetHashByNoRsp(at finder timeout)", late)
+			}
+			r.mu.Unlock()
+			if late != nil {
+				r.tell(late)
+			}
+		}
 		r.tell(m) // finder / fetchers talking to their own syncer: delivered as is
 	case message.P2PSvc:
 		if s == nil {
@@ -611,9 +624,11 @@ func (r *rig) onGetHashByNo(s *session, m *message.GetHashByNo) {
 	case "dup":
 		c := *truth
 		r.reply(s, d, truth, "GetHashByNoRsp", &c)
-	case "edge": // the truthful answer arrives just when the finder's timer fires
-		off := time.Duration(int64(h64(r.sc.Seed, "edge", m.BlockNo)%600)-300) * time.Microsecond
-		send(truth, fetchTimeout+off)
+	case "edge":
+		// The truthful answer is slow and reaches the syncer's mailbox in the instant between the finder's
+		// timer firing and the finder's own SyncStop being enqueued (both are concurrent producers of one
+		// mailbox).  The rig realises exactly this order in TellTo when it sees that SyncStop.
+		s.edgeReply = truth
 	case "err":
 		send(&message.GetHashByNoRsp{Seq: m.Seq, Err: message.RemotePeerFailError}, d)
 	case "wrong":
